@@ -253,6 +253,13 @@ BuildAE(s, me, p, lastBefore, newEnts, cap) ==
       ents |-> ReqEntries(s.log, nx, lastBefore, newEnts, cap), lc |-> s.commit]
 SpecNext(s, ae) == Max(ae.prev + Len(ae.ents) + 1, s.match[ae.to] + 1)
 
+\* log compaction ---------------------------------------------------------------------------
+\* prepare_batch_requests: a peer whose next index lies below the leader's first retained index is served by
+\* snapshot, every other peer by AppendEntries (first = first_entry_id(), 0/1 = nothing purged)
+NeedsSnapshot(first, nextp) == first > 1 /\ nextp < first
+\* can_purge_logs (leader and follower): the snapshot must end below the commit index and above the last purge
+PurgeLegal(commit, lastPurged, lastIncluded) == lastIncluded < commit /\ lastPurged < lastIncluded
+
 \* AppendEntries response r = [from, kind, t, mi, mt, ct, ci] at the leader (handle_append_result)
 AR_State(s, r, voterPeers) ==
   IF s.role # "L" \/ (r.t < s.term /\ "M_AcceptStaleAck" \notin Dev) THEN s
